@@ -15,6 +15,7 @@ func init() {
 		Explain: "Decides the event-handler contract as table and shape facts: the event names a filter accepts are exactly the names EventType.String() produces plus '*'; a script runs only behind its filter's Invoke(e) == true, and Invoke returns true only on '*' or on type-name equality, additionally behind name equality for user:NAME / query:NAME filters; the type switch of the invoker covers every implementation of serf.Event; SERF_EVENT, SERF_SELF_NAME and SERF_SELF_ROLE are always set, the user/query name and Lamport time variables in their arms, SERF_TAG_ names go through upper-casing and the [^A-Z0-9_] sanitiser; a member line has exactly four tab-separated fields ending in a newline with the free-text fields passed through the tab/newline escaper; a payload gets a newline appended exactly when it is non-empty and lacks one; a query response is sent only after a successful run with output, from the 8 KiB ring buffer. What the shell does is not covered.",
 		Run:     runC27,
 		Mutants: []Mutant{
+			{Name: "inherited-env-overrides", File: "cmd/serf/command/agent/invoke.go", Func: "func invokeEventScript(", Old: "\tcmd.Env = append(os.Environ(),\n", New: "\tcmd.Env = append(os.Environ()[:0:0],\n", Expect: "R3|env:inherited-first"},
 			{Name: "filter-accepts-unknown-event", File: "cmd/serf/command/agent/event_handler.go", Func: "func (s *EventFilter) Valid(", Old: "\tcase \"member-reap\":\n", New: "\tcase \"member-reap\":\n\tcase \"member-remove\":\n", Expect: "R1"},
 			{Name: "user-name-filter-ignored", File: "cmd/serf/command/agent/event_handler.go", Func: "func (s *EventFilter) Invoke(", Old: "\t\tif userE.Name != s.Name {\n\t\t\treturn false\n\t\t}\n", New: "\t\t_ = userE\n", Expect: "R4"},
 			{Name: "query-name-prefix-match", File: "cmd/serf/command/agent/event_handler.go", Func: "func (s *EventFilter) Invoke(", Old: "if query.Name != s.Name {", New: "if !strings.HasPrefix(query.Name, s.Name) {", Expect: "R4"},
@@ -181,6 +182,23 @@ func runC27(c *an.Ctx) {
 				c.Add(val == "$3.(*serf.Query)#0.Name" && an.GuardedBy(inv, in, an.Cmp{L: "$3.(*serf.Query)#1", Op: "==", R: "c:true"}), "R3", "env-value:SERF_QUERY_NAME", in, "SERF_QUERY_NAME is the query's name, in the query arm", "value path + edge dominance")
 			}
 		})
+		// the inherited environment comes first: exec keeps the last value of a duplicated key, so the per-event
+		// variables must be appended after os.Environ(), never the other way round
+		nEnv := 0
+		for _, ev := range an.CallsTo(inv, "os.Environ") {
+			nEnv++
+			base := false
+			for _, r := range *ev.(*ssa.Call).Referrers() {
+				if call, ok := r.(*ssa.Call); ok {
+					if b, isB := call.Call.Value.(*ssa.Builtin); isB && b.Name() == "append" && call.Call.Args[0] == ev.(ssa.Value) {
+						base = true
+					}
+				}
+			}
+			used := len(*ev.(*ssa.Call).Referrers())
+			c.Add(base && used == 1, "R3", "env:inherited-first", ev, "the process environment is the base the SERF_ variables are appended to (they take precedence over inherited values)", "use of os.Environ() as the first operand of append only")
+		}
+		c.Floor("R3", "os.Environ() uses in the invoker", nEnv, 1)
 		for _, k := range []string{"SERF_USER_EVENT=", "SERF_QUERY_NAME="} {
 			c.Add(cs[k], "R3", "env:"+k, inv, k+" is set in its arm", "string constant enumeration")
 		}
